@@ -66,13 +66,26 @@ for job in spec["jobs"]:
     prefix = job[3] if len(job) > 3 else spec["dfile_prefix"]
     try:
         kw = {}
-        if mode not in ("ts", "dup"):
+        if mode not in ("ts", "dup", "exc"):
             from py_compile import PycInvalidationMode as M
             kw["invalidation_mode"] = M.CHECKED_HASH if mode == "ch" else M.UNCHECKED_HASH
         elif sys.version_info >= (3, 7):
             from py_compile import PycInvalidationMode as M
             kw["invalidation_mode"] = M.TIMESTAMP
-        if mode == "dup":
+        if mode == "exc":
+            # a legal marshal stream whose 3.11+ exception tables end in an incomplete entry (last byte dropped):
+            # loadable everywhere, and every host / path must make the same of it
+            import marshal, struct, types
+            with open(src, "rb") as f:
+                co = compile(f.read(), prefix + os.path.basename(src), "exec", dont_inherit=True)
+            def cut(c):
+                consts = tuple(cut(k) if isinstance(k, types.CodeType) else k for k in c.co_consts)
+                t = c.co_exceptiontable
+                return c.replace(co_consts=consts, co_exceptiontable=t[:-1] if len(t) > 1 else t)
+            import importlib.util
+            with open(dst, "wb") as f:
+                f.write(importlib.util.MAGIC_NUMBER + struct.pack("<III", 0, 1700000000, 0) + marshal.dumps(cut(co)))
+        elif mode == "dup":
             # a file no compiler emits but a bytecode rewriter can: every nested code constant appears twice, as
             # two distinct but equal objects
             import marshal, struct, types
@@ -184,6 +197,10 @@ def produce_corpus(seed, n_xdis, n_stdlib, only_tags=None, outdir=None, workers=
                 stem = "%03d_%s" % (k, os.path.basename(src)[:-3])
                 dst = os.path.join(tdir, "%s.%s.pyc" % (stem, mode))
                 jobs.append([src, dst, mode])
+            if vt >= (3, 11) and os.path.basename(src) in ("s05_jumps.py", "s05b_with.py", "s07g_exc311.py",
+                                                          "s07c_async35.py", "04_raise.py"):
+                stem = "%03d_%s" % (k, os.path.basename(src)[:-3])
+                jobs.append([src, os.path.join(tdir, "%s.exc.pyc" % stem), "exc"])
             if k % 5 == 2 and vt >= (3, 8):
                 stem = "%03d_%s" % (k, os.path.basename(src)[:-3])
                 jobs.append([src, os.path.join(tdir, "%s.dup.pyc" % stem), "dup"])
